@@ -35,7 +35,9 @@ NetMut == {<<"adjacency", 1>>, <<"adjacency", 2>>, <<"set_edge_list", 1>>, <<"se
            <<"set_link_attribute", 2>>, <<"del_link_attribute", 0>>}
 \* the caller edits the very array it passed last time and hands it over again
 SameMut == {<<"adjacency~same", 1>>, <<"adjacency~same", 2>>, <<"node_weights~same", 1>>,
-            <<"node_weights~same", 2>>, <<"set_link_attribute~same", 1>>, <<"set_link_attribute~same", 2>>}
+            <<"node_weights~same", 2>>, <<"set_link_attribute~same", 1>>, <<"set_link_attribute~same", 2>>,
+            \* the caller takes the array the object hands out, edits it and assigns it back (w = net.node_weights; w[:] = ...)
+            <<"node_weights~getset", 1>>, <<"node_weights~getset", 2>>}
 RpMut == {<<"set_fixed_threshold", 1>>, <<"set_fixed_threshold", 2>>,
           <<"set_fixed_recurrence_rate", 1>>, <<"set_fixed_recurrence_rate", 2>>}
 ClimMut == {<<"set_threshold", 1>>, <<"set_threshold", 2>>, <<"set_link_density", 1>>,
@@ -71,7 +73,7 @@ Alphabet(f) ==
 Apply(f, a, m) ==
   LET name == m[1]  v == m[2] IN
   IF name \in {"adjacency", "set_edge_list", "adjacency~same"} THEN [a EXCEPT !.A = v, !.LA = 0]     \* a new graph has no attributes
-  ELSE IF name \in {"node_weights", "node_weights~same"} THEN [a EXCEPT !.W = v]
+  ELSE IF name \in {"node_weights", "node_weights~same", "node_weights~getset"} THEN [a EXCEPT !.W = v]
   ELSE IF name \in {"set_link_attribute", "set_link_attribute~same"} THEN [a EXCEPT !.LA = v]
   ELSE IF name = "del_link_attribute" THEN [a EXCEPT !.LA = 0]
   ELSE IF name = "set_node_weight_type" THEN [a EXCEPT !.NWT = v, !.W = 0]         \* weights follow the type
